@@ -19,7 +19,7 @@ func VerifSetup_C13c() { check.VerifSetup_Pipe() }
 func VerifRun_C13c() {
 	pathpre.InitialRootURIAndPath("file:///w", "/w")
 	n := verifParam("N")
-	pay := verifBytesIn("pay", n, "k\xc3\xa9\xe4\xb8\xad\xf0\x9f\x98\x80")
+	pay := verifBytesIn("pay", n, "k%s\xc3\xa9\xe4\xb8\xad\xf0\x9f\x98\x80")
 	verifAssume(codingconv.VerifWellFormed(pay))
 	has2 := false
 	for _, c := range pay {
